@@ -31,6 +31,10 @@ def generate(rng, idx, tier, variant):
     if dup:
         spec['span']['type'] = 'list_dup_inner'
         spec['lags'] = spec['leads'] = lags = leads = 0
+    npdup = (not parser) and (not dup) and n >= 5 and rng.random() < 0.04
+    if npdup:
+        spec['span']['type'] = 'np_dup'
+        spec['lags'] = spec['leads'] = lags = leads = 0
     if idx % 97 == 0:
         # empty span
         spec['span']['n'] = n = 0
@@ -68,6 +72,9 @@ def generate(rng, idx, tier, variant):
         if dup and n:
             start = rng.choice([None, 0])
             end = rng.choice([None, n - 1])
+        if npdup and n:
+            # the twice-occurring label as start or end: it does not resolve to a single position
+            start, end = rng.choice([('?dup', None), (None, '?dup'), ('?dup', n - 1), (0, '?dup')])
         ps = lo if not isinstance(start, int) else start
         pe = hi if not isinstance(end, int) else end
         positions = list(range(ps, pe + 1)) if n else []
@@ -101,7 +108,7 @@ def generate(rng, idx, tier, variant):
             ops.append({'op': 'poke', 'name': nm_, 'pos': rng.randrange(n), 'v': rng.choice(['nan', 'inf', '-inf', 0.0, 1.0])})
         if n and rng.random() < 0.3:
             # history before the solve: every party is replaced by a reindexed version or by a copy of itself
-            if rng.random() < 0.7 and not dup:
+            if rng.random() < 0.7 and not dup and not npdup:
                 ops.append({'op': 'reindex', 'shift': rng.choice([-2, -1, 1, 2, 3]), 'grow': rng.choice([0, 0, 1, 2])})
             else:
                 ops.append({'op': 'copy', 'route': rng.choice(['copy', 'deepcopy'])})
@@ -139,6 +146,8 @@ def _label(spec, span, x, form):
         return spans.absent_label(spec['span'])
     if x == '?multi':
         return str(span[0].year)  # a year against a quarterly PeriodIndex: several positions
+    if x == '?dup':
+        return span[1].item() if hasattr(span[1], 'item') else span[1]  # occurs twice in an 'np_dup' span
     return spans.label_forms(spec['span'], span, x, form)
 
 
@@ -271,7 +280,7 @@ def execute(schedule, ctx):
             ctx.outcome('solve', 'empty-span:' + _cls(outA))
             ctx.log(step, 'solve', 'empty-span', _cls(outA))
             continue
-        bad_label = op['start'] in ('?absent', '?multi') or op['end'] in ('?absent', '?multi')
+        bad_label = op['start'] in ('?absent', '?multi', '?dup') or op['end'] in ('?absent', '?multi', '?dup')
         if opts['min_iter'] > opts['max_iter']:
             ctx.probe('min_iter>max_iter')
             if not (outA['kind'] == 'interrupt'):
@@ -281,7 +290,7 @@ def execute(schedule, ctx):
             ctx.log(step, 'solve', 'rejected', _cls(outA))
             continue
         if bad_label:
-            ctx.probe('unknown-label' if '?absent' in (op['start'], op['end']) else 'multi-position-label')
+            ctx.probe('unknown-label' if '?absent' in (op['start'], op['end']) else 'twice-occurring-label' if '?dup' in (op['start'], op['end']) else 'multi-position-label')
             if outA['kind'] != 'interrupt':
                 chk('bad-label/KeyError', _cls(outA) == 'KeyError', {'got': _cls(outA), 'start': repr(start_l), 'end': repr(end_l)})
                 chk('bad-label/nothing-solved', not ref_solver.diff_cells(snap, postA) and not probes.get_ctl(A).log, {'changed': ref_solver.diff_cells(snap, postA)[:6]})
